@@ -115,6 +115,10 @@ fn set_mtime(path: &std::path::Path, secs: i64) -> bool {
 }
 
 fn run(ctx: &Ctx, rep: &Report) {
+    // a conversion is a function of the instant alone: the whole check runs with reproducible-build
+    // and time-zone variables set to values that would show if they were consulted
+    std::env::set_var("SOURCE_DATE_EPOCH", ["1000000000", "0", "4102444800", "86400"][(ctx.seed % 4) as usize]);
+    std::env::set_var("TZ", ["Pacific/Kiritimati", "America/Los_Angeles", "Asia/Kolkata", "UTC"][(ctx.seed % 4) as usize]);
     let win: i64 = ctx.tier.pick(100_000, 20_000_000) / if ctx.is_dbg() { 20 } else { 1 };
     let centers = [0i64, 1 << 31, TWO32];
     // 0. the seconds next to each boundary with every sub-second offset and every zone
